@@ -281,6 +281,10 @@ def c_hq(t):
     if o == 'hpins':
         _arity(t, 3)
         return '(HHpins %s %s)' % (c_bool(t[1]), c_href(t[2]))
+    if o == 'ordered':
+        _arity(t, 5)
+        kind = _look({'hwires': 'OWires', 'hcables': 'OCables', 'hpins': 'OPins', 'hports': 'OPorts'}, t[1], 'ordered query')
+        return '(HOrdered %s %s %s %s)' % (kind, c_bool(t[2]), c_list([c_str(x) for x in t[3].split(';')]), c_href(t[4]))
     if o == 'roots':
         if len(t) < 7:
             raise TokenError('short roots query')
@@ -572,6 +576,8 @@ def canon_q_answer(query_toks, line):
         return ('error', line)
     if line == 'FUEL':
         return [[0]]
+    if line == 'RAISES' and o == 'ordered':
+        return [[2]]
     if o == 'wf':
         m = re.fullmatch(r'inv1a=([01]) inv2a=([01]) kinds=([01]) acyclic=([01]) pinwire=([01]) standalone=([01])', line)
         if not m:
@@ -634,7 +640,7 @@ def sample_session(rec, k, rng):
         groups = collections.OrderedDict()
         for j in qidx:
             t = seg[j][0].split(' ')
-            groups.setdefault(' '.join(t[1:3]) if t[1] in ('enum', 'below') else t[1] + t[3] if t[1] in ('hwires', 'hcables') else 'roots' + t[2] if t[1] == 'roots' else t[1], []).append(j)
+            groups.setdefault(' '.join(t[1:3]) if t[1] in ('enum', 'below') else t[1] + t[3] if t[1] in ('hwires', 'hcables') else t[1] + t[2] if t[1] in ('roots', 'ordered') else t[1], []).append(j)
         order = list(groups.values())
         for g in order:
             rng.shuffle(g)
